@@ -66,26 +66,51 @@ Theorem C05_policy_holds : forall secret point pub point_eqb,
 Proof. exact policy_holds. Qed.
 
 (** a secret is released only after the successor commitment was validated FULLY SIGNED (as many
-    counterparty HTLC signatures as non-dust HTLCs, all valid), never after a holder commitment was
-    signed for broadcast, and no released number is signed afterwards *)
+    counterparty HTLC signatures as non-dust HTLCs, all valid); neither that commitment nor a newer
+    one was signed for broadcast before, and none is signed afterwards *)
 Theorem C05_release_after_newer : forall secret point pub point_eqb,
   (forall p, point_eqb p p = true) -> (forall p q, point_eqb p q = true -> p = q) ->
   forall batch p0 ops pre k post,
   machine_log secret point pub point_eqb batch p0 ops = pre ++ Release k :: post ->
   (exists n, In (ValidateHolder (k - 1) n n) pre) /\
-  (forall k', ~ In (SignHolder k') pre) /\
+  (forall k', In (SignHolder k') pre -> k' < k) /\
   (forall k', In (SignHolder k') post -> k' < k).
 Proof. exact run_release_after_newer. Qed.
 
-(** whatever holder commitment is signed for broadcast was never revoked, and after it the node
-    does nothing but sign that again *)
+(** whatever holder commitment is signed for broadcast -- by a close or by the monitor's public API
+    on a channel that is still open -- was validated (or is the initial one) and was never revoked *)
 Theorem C05_sign_holder_unrevoked : forall secret point pub point_eqb,
   (forall p, point_eqb p p = true) -> (forall p q, point_eqb p q = true -> p = q) ->
   forall batch p0 ops pre k post,
   machine_log secret point pub point_eqb batch p0 ops = pre ++ SignHolder k :: post ->
-  (forall j, In (Release j) pre -> k < j) /\
-  (forall e, In e post -> exists k', e = SignHolder k').
+  (k = INITIAL \/ exists n, In (ValidateHolder k n n) pre) /\
+  (forall j, In (Release j) pre -> k < j).
 Proof. exact run_sign_holder_unrevoked. Qed.
+
+(** ... and is never revoked LATER: once holder commitment [k] was signed for broadcast, on any path
+    (error close, user force close, HTLC timeout, [ChannelMonitor::broadcast_latest_holder_commitment_txn]
+    on a live channel with the ChannelManager handling any number of peer messages before it learns
+    of it), no operation list makes the node release the secret of [k] or of anything newer *)
+Theorem C05_no_release_after_holder_broadcast : forall secret point pub point_eqb,
+  (forall p, point_eqb p p = true) -> (forall p q, point_eqb p q = true -> p = q) ->
+  forall batch p0 ops pre k post,
+  machine_log secret point pub point_eqb batch p0 ops = pre ++ SignHolder k :: post ->
+  forall j, In (Release j) post -> k < j.
+Proof. exact run_no_release_after_holder_broadcast. Qed.
+
+(** a revoke_and_ack received while no commitment_signed of ours is outstanding
+    ([AWAITING_REMOTE_REVOKE] not set) is refused in EVERY other state -- monitor update in progress,
+    our stfu sent, disconnected, monitor locked --: the counterparty number and points do not move,
+    nothing is validated, stored or announced, the channel is closed (while quiescent: warned, unchanged) *)
+Theorem C05_unsolicited_revocation_rejected : forall secret point pub point_eqb (s : st secret point)
+  sec np chain_ok commit sync,
+  closed s = false -> awaiting_rr s = false ->
+  let s' := fst (step secret point pub point_eqb s (ORecvRAA sec np chain_ok commit sync)) in
+  let evs := snd (step secret point pub point_eqb s (ORecvRAA sec np chain_ok commit sync)) in
+  cp_next s' = cp_next s /\ cp_cur_point s' = cp_cur_point s /\ cp_next_point s' = cp_next_point s /\
+  (evs = [] \/ evs = [SignHolder (holder_next s + 1)]) /\
+  (if quiescent (ext s) then s' = s else closed s' = true).
+Proof. exact unsolicited_revocation_rejected. Qed.
 
 (** when counterparty commitment [k] is signed, every number above [k+1] is already revoked with
     its secret stored: at most one earlier counterparty commitment is unrevoked *)
@@ -105,7 +130,7 @@ Theorem C05_step_by_one : forall secret point pub point_eqb,
   match e with
   | ValidateHolder k nsig nnd => k = INITIAL - 1 - count is_vh pre /\ nsig = nnd
   | Release k => k = INITIAL + 1 - count is_vh pre
-  | SignHolder k => k = INITIAL - count is_vh pre
+  | SignHolder k => INITIAL - count is_vh pre <= k <= INITIAL
   | ValidateRevocation k => k = INITIAL - count is_vr pre /\ count is_store pre = count is_vr pre
   | StoreSecret k _ => k = INITIAL - count is_store pre
   | SignCounterparty k => k = INITIAL - 1 - count is_store pre
@@ -173,12 +198,21 @@ Theorem C05_reestablish_adjacent_only : forall secret point (s : st secret point
                          (e = SignCounterparty (cp_next s) /\ nl = ncp - 1)).
 Proof. exact reest_resumes_only_adjacent. Qed.
 
-(** the two source comparisons behind [ORecvCS]'s signature-count test and [recv_channel_ready]'s
-    re-sent-message test, re-read from channel.rs on every run, are the ones the machine transliterates *)
+(** the source comparisons the machine transliterates, re-read from channel.rs / channelmonitor.rs on
+    every run: [ORecvCS]'s signature-count test, [recv_channel_ready]'s re-sent-message test, the
+    "unexpected revoke_and_ack" guard (AWAITING_REMOTE_REVOKE and nothing else), the conjuncts of
+    [can_generate_new_commitment], the place where the monitor sets [holder_tx_signed] (inside the
+    claim generation every broadcast path goes through) and what [no_further_updates_allowed] tests *)
 Theorem C05_source_pins :
   htlc_sig_count_test = "msg.htlc_signatures.len() != commitment_data.tx.nondust_htlcs().len()"%string /\
   channel_ready_resend_test =
-    "flags.clone().clear(AwaitingChannelReadyFlags::WAITING_FOR_BATCH) == AwaitingChannelReadyFlags::THEIR_CHANNEL_READY"%string.
+    "flags.clone().clear(AwaitingChannelReadyFlags::WAITING_FOR_BATCH) == AwaitingChannelReadyFlags::THEIR_CHANNEL_READY"%string /\
+  raa_unexpected_test = "!self.context.channel_state.is_awaiting_remote_revoke()"%string /\
+  can_generate_new_commitment_test =
+    "!flags.is_set(ChannelReadyFlags::AWAITING_REMOTE_REVOKE) && !flags.is_set(ChannelReadyFlags::LOCAL_STFU_SENT) && !flags.is_set(ChannelReadyFlags::QUIESCENT) && !flags.is_set(FundedStateFlags::MONITOR_UPDATE_IN_PROGRESS.into()) && !flags.is_set(FundedStateFlags::PEER_DISCONNECTED.into())"%string /\
+  monitor_lock_in_claim_generation = "self.holder_tx_signed = true;"%string /\
+  monitor_no_further_updates_test =
+    "self.funding_spend_seen || self.lockdown_from_offchain || self.holder_tx_signed"%string.
 Proof. exact source_pins. Qed.
 
 (** ** A statement that does NOT hold (known finding C05-F1; see design/C05.md)
@@ -198,6 +232,23 @@ Theorem C05_unrecorded_counterparty_commitment_refuted :
     evs = [SignCounterparty (cp_next s)] /\
     closed s' = false /\ awaiting_rr s' = false /\ disconnected s' = false /\ cp_next s' = cp_next s.
 Proof. exact unrecorded_counterparty_commitment_witness. Qed.
+
+(** ** A second statement that does NOT hold (known finding C05-F2; see design/C05.md)
+
+    "A revocation of counterparty commitment k is accepted only after k-1 was signed, and the signed
+    numbers have no gap" is refuted: the node builds commitment INITIAL-1 (its ChannelMonitorUpdate in
+    flight, nothing signed yet), the peer revokes INITIAL early, the node accepts (it IS awaiting a
+    revocation), and when the update completes it signs INITIAL-2. The same sequence was replayed on
+    the unmodified implementation (h_early_raa_probe): the monitor was handed ...652, the signer is
+    asked for ...651 (TestChannelSigner's own policy assertion fires: "doesn't come after"). *)
+Theorem C05_revocation_before_signature_refuted :
+  exists (ops : list (op Z Z)),
+    let '(s, log) := run Z Z (fun x => x) Z.eqb (init Z Z false 100) (init_log Z Z 100) ops in
+    closed s = false /\ awaiting_rr s = false /\ mon_in_progress s = false /\
+    In (StoreSecret INITIAL 100) log /\
+    ~ In (SignCounterparty (INITIAL - 1)) log /\
+    In (SignCounterparty (INITIAL - 2)) log.
+Proof. exact early_revocation_witness. Qed.
 
 (** ** Non-vacuity *)
 
@@ -254,4 +305,24 @@ Example C05_run_nontrivial_2 :
    ValidateHolder (INITIAL - 2) 0 0;
    Release (INITIAL - 1); SignCounterparty (INITIAL - 3);
    SignHolder (INITIAL - 2); SignHolder (INITIAL - 2)].
+Proof. vm_compute. reflexivity. Qed.
+
+(** the user broadcasts through the monitor while the channel is open; the peer's commitment_signed is
+    handled before the ChannelManager learns of it: the new commitment is validated, but its monitor
+    update never completes (not even when the persister says so), so the revoke_and_ack revoking the
+    broadcast commitment is never produced; the ChannelManager then closes without another broadcast,
+    and a later re-broadcast signs the same commitment again *)
+Example C05_run_monitor_broadcast_on_live_channel :
+  machine_log Z Z (fun x => x) Z.eqb false 100
+    [OOurChannelReady; ORecvChannelReady 101;
+     ORecvCS true 0 0 true false true;     (* an ordinary round first *)
+     OMonBroadcast;
+     ORecvCS true 1 1 true false true; OMonitorDone;
+     ORecvRAA 100 102 true false true;     (* not awaiting: closes; the claim exists, nothing is signed *)
+     OProcessEvents; OResign] =
+  [Announce INITIAL 100; Announce (INITIAL - 1) 101;
+   ValidateHolder (INITIAL - 1) 0 0; Release INITIAL;
+   SignHolder (INITIAL - 1);
+   ValidateHolder (INITIAL - 2) 1 1;
+   SignHolder (INITIAL - 1)].
 Proof. vm_compute. reflexivity. Qed.
